@@ -13,7 +13,7 @@ from . import core
 sys.path.insert(0, core.REPO)
 
 LABELS = {"acq": 1, "rel": 2, "zacq": 3, "zrel": 4, "rd_closed": 5, "rd_closing": 6, "wr_closing": 7, "wr_closed": 8,
-          "send1": 9, "send2": 10, "zcompress": 11, "zflush": 12, "wr_time": 13, "sockclose": 14, "line": 15}
+          "send1": 9, "send2": 10, "zcompress": 11, "zflush": 12, "wr_time": 13, "sockclose": 14, "line": 15, "tryacq": 16, "ztryacq": 17}
 
 # source files whose lines are scheduling points in line-level mode
 LINE_FILES = ("frame.py", "compression.py", "websocket.py", "session.py", "mask.py", "message.py", "stream.py")
@@ -94,7 +94,14 @@ class CoopLock(object):
         self.name = name
         self.owner = None
 
-    def acquire(self, *a, **kw):
+    def acquire(self, blocking=True, timeout=-1):
+        if not blocking:
+            # a probe: it never waits, so it is a scheduling point that is always enabled, and it fails while the lock is held
+            self.sched.point("tryacq" if self.name == "lock" else "ztryacq")
+            if self.owner is not None:
+                return False
+            self.owner = self.sched.me() if self.sched.me() is not None else -1
+            return True
         self.sched.point("acq" if self.name == "lock" else "zacq", self)
         assert self.owner is None, "scheduler released a thread onto a held lock"
         self.owner = self.sched.me() if self.sched.me() is not None else -1
@@ -103,6 +110,9 @@ class CoopLock(object):
     def release(self):
         self.sched.point("rel" if self.name == "lock" else "zrel")
         self.owner = None
+
+    def locked(self):
+        return self.owner is not None
 
     def __enter__(self):
         self.acquire()
